@@ -1196,7 +1196,8 @@ func parseLinkLabel(r *inlineByteReader) linkLabel {
 	result.inner.Start = r.pos
 
 	// Consume rest of the label text.
-	for ; chars <= maxChars && r.current() != '[' && r.current() != ']'; chars++ {
+	// A character is a code point: the continuation bytes of a multi-byte character do not count.
+	for chars <= maxChars && r.current() != '[' && r.current() != ']' {
 		if r.current() == '\\' {
 			result.inner.End = r.pos + 1
 			chars++
@@ -1212,6 +1213,9 @@ func parseLinkLabel(r *inlineByteReader) linkLabel {
 		if !r.next() {
 			return linkLabel{NullSpan(), NullSpan()}
 		}
+		if !isUTF8ContinuationByte(r.current()) {
+			chars++
+		}
 	}
 
 	if r.current() != ']' {
@@ -1220,6 +1224,10 @@ func parseLinkLabel(r *inlineByteReader) linkLabel {
 	result.span.End = r.pos + 1
 	r.next()
 	return result
+}
+
+func isUTF8ContinuationByte(c byte) bool {
+	return c&0xc0 == 0x80
 }
 
 // skipLinkSpace skips over "spaces, tabs, and up to one line ending"
